@@ -120,9 +120,11 @@ package retriever
 //@   nomod
 //@   ensures validated: result.1 == nil ==> phasesValid(result.0)
 //@ func manifestFileCount(value Manifest) int
+//@   modular
 //@   nosafety
 //@   nomod
 //@ func manifestFragmentBytes(value Manifest) (int64, int64)
+//@   modular
 //@   nosafety
 //@   nomod
 //@ func assertManifestSchemas(ctx context.Context, db graph.Database, value Manifest) error
@@ -198,6 +200,7 @@ package retriever
 //@   ensures result.1 == nil && result.0.NodeCount == 0 && result.0.EdgeCount == 0 ==> graphSeenEmpty[targetGraph.Name]
 //@   ensures !(result.1 == nil && result.0.NodeCount == 0 && result.0.EdgeCount == 0) ==> graphSeenEmpty[targetGraph.Name] == old(graphSeenEmpty[targetGraph.Name])
 //@ func requireEmptyLoadTargets(ctx context.Context, db graph.Database, graphEntries []GraphManifest) error
+//@   modular
 //@   nosafety
 //@   modifies all(ghost:g.graphSeenEmpty)
 //@   ensures allEmpty: result == nil ==> (forall i int :: {:pattern graphEntries[i].Name} 0 <= i && i < len(graphEntries) ==> graphSeenEmpty[graphEntries[i].Name])
@@ -289,6 +292,7 @@ package retriever
 // scoping guarantees; os.Remove is assumed to succeed (its error is ignored by the code).
 //@ ghost comp closedOK bool
 //@ func cloneActionCounts(source map[string]int) map[string]int
+//@   modular
 //@   nosafety
 //@   nomod
 //@   ensures copy: result != nil && result != source && (forall k string :: (k in result) == (k in source)) && (forall k string :: k in source ==> result[k] == source[k])
@@ -345,6 +349,7 @@ package retriever
 // manifest has been published under its final name. removeDumpCheckpoint requires that; Dump is verified to call it
 // only on the path where writeManifest returned nil (and writeManifest's own contract says what that means).
 //@ func removeDumpCheckpoint(outputDir string) error
+//@   modular
 //@   nosafety
 //@   requires manifestFirst: fileComplete[joinPath(outputDir, manifestFileName)]
 //@   modifies fileComplete[joinPath(outputDir, dumpCheckpointFileName)]
